@@ -54,9 +54,16 @@ def point_inside(points: np.ndarray, vertices: np.ndarray, in_out: str) -> np.nd
     mat = vertices[:, 1:].swapaxes(0, 1) - vertices[:, 0]
     mat = np.transpose(mat.swapaxes(0, 1), (0, 2, 1))
 
-    tetra = np.linalg.inv(mat)
-    newp = np.matmul(tetra, np.reshape(points - vertices[:, 0, :], (*points.shape, 1)))
-    inside = (
+    # a flat tetrahedron (coplanar vertices, singular matrix) has no interior
+    regular = np.linalg.det(mat) != 0
+    inside = np.zeros(len(points), dtype=bool)
+    if not np.any(regular):
+        return inside
+
+    tetra = np.linalg.inv(mat[regular])
+    rel = (points - vertices[:, 0, :])[regular]
+    newp = np.matmul(tetra, np.reshape(rel, (*rel.shape, 1)))
+    inside[regular] = (
         np.all(newp >= 0, axis=1)
         & np.all(newp <= 1, axis=1)
         & (np.sum(newp, axis=1) <= 1)
